@@ -132,11 +132,11 @@ theorem locate_never_panics (fs : Ext.FS) (main : String) (svcs : Ext.Services) 
 /-- `extends_never_panics` (full strength since the repair of `panic@paths.(*relativePathsResolver).absExtendsPath`;
 it was `Neg.extends_never_panics_false`): the extends recursion has no panic outcome, for any file system, fuel,
 services and tracker -/
-theorem extends_never_panics (fs : Ext.FS) (main : String) :
-    ∀ (fuel : Nat) (svcs : Ext.Services) (name : String) (tr : Tracker) (s : String),
+theorem extends_never_panics (fs : Ext.FS) :
+    ∀ (fuel : Nat) (main : String) (svcs : Ext.Services) (name : String) (tr : Tracker) (s : String),
       (Ext.resolve fs main fuel svcs name tr).1 ≠ .panic s
-  | 0, _, _, _, _ => by unfold Ext.resolve; intro h; cases h
-  | fuel + 1, svcs, name, tr, s => by
+  | 0, _, _, _, _, _ => by unfold Ext.resolve; intro h; cases h
+  | fuel + 1, main, svcs, name, tr, s => by
     unfold Ext.resolve
     split
     · intro h; cases h
@@ -154,8 +154,8 @@ theorem extends_never_panics (fs : Ext.FS) (main : String) :
         split
         · intro h; cases h
         · rename_i tr' _
-          have ih := extends_never_panics fs main fuel (target.getD svcs) ref tr' s
-          generalize Ext.resolve fs main fuel (target.getD svcs) ref tr' = res at ih
+          have ih := extends_never_panics fs fuel file (target.getD svcs) ref tr' s
+          generalize Ext.resolve fs file fuel (target.getD svcs) ref tr' = res at ih
           obtain ⟨r1, b, s'⟩ := res
           simp only at ih
           cases r1 with
@@ -172,7 +172,7 @@ theorem extends_ok_xor_err (fs : Ext.FS) (main : String) (svcs : Ext.Services) (
   cases hr : (Ext.resolve fs main fuel svcs name []).1 with
   | ok => exact Or.inl rfl
   | err c => exact Or.inr ⟨c, rfl⟩
-  | panic s => exact absurd hr (extends_never_panics fs main fuel svcs name [] s)
+  | panic s => exact absurd hr (extends_never_panics fs fuel main svcs name [] s)
   | outOfFuel => exact absurd hr h
 
 /-! ## include -/
